@@ -62,6 +62,77 @@ pub fn fmt_format(_args: std::fmt::Arguments<'_>) -> String {
     String::new()
 }
 
+/// std's SWAR-optimised character counter, replaced by its definition (non-continuation bytes).
+pub fn count_chars(s: &str) -> usize {
+    let b = s.as_bytes();
+    let mut n = 0;
+    let mut i = 0;
+    while i < b.len() {
+        if (b[i] as i8) >= -0x40 {
+            n += 1;
+        }
+        i += 1;
+    }
+    n
+}
+
+// ---- container model for ArenaString (used where the *callers'* logic is the subject) ----
+// Vec growth (reserve -> finish_grow -> Allocator::grow) with symbolic lengths does not fit in a
+// SAT instance here; the growth path itself is decided under C11 (grow) and is std's code.
+// The model keeps the real representation (a Vec<u8, &Arena> in the real arena) and replaces
+// only: capacity is allocated up front (MODEL_CAP), appends are byte loops that assert room.
+pub const MODEL_CAP: usize = 32;
+impl<'a> crate::arena::ArenaString<'a> {
+    pub fn verif_with_capacity_in(_capacity: usize, arena: &'a crate::arena::Arena) -> Self {
+        unsafe { crate::arena::ArenaString::from_utf8_unchecked(Vec::with_capacity_in(MODEL_CAP, arena)) }
+    }
+    pub fn verif_new_in(arena: &'a crate::arena::Arena) -> Self {
+        Self::verif_with_capacity_in(0, arena)
+    }
+    pub fn verif_reserve_exact(&mut self, additional: usize) {
+        assert!(self.len() + additional <= MODEL_CAP, "model capacity exceeded");
+    }
+    pub fn verif_push_str(&mut self, string: &str) {
+        let src = string.as_bytes();
+        let v = unsafe { self.as_mut_vec() };
+        let len = v.len();
+        assert!(len + src.len() <= MODEL_CAP, "model capacity exceeded");
+        let mut i = 0;
+        while i < src.len() {
+            unsafe { *v.as_mut_ptr().add(len + i) = src[i] };
+            i += 1;
+        }
+        unsafe { v.set_len(len + src.len()) };
+    }
+    pub fn verif_push(&mut self, ch: char) {
+        let mut buf = [0u8; 4];
+        let s = ch.encode_utf8(&mut buf);
+        let n = s.len();
+        let v = unsafe { self.as_mut_vec() };
+        let len = v.len();
+        assert!(len + n <= MODEL_CAP, "model capacity exceeded");
+        let mut i = 0;
+        while i < n {
+            unsafe { *v.as_mut_ptr().add(len + i) = buf[i] };
+            i += 1;
+        }
+        unsafe { v.set_len(len + n) };
+    }
+}
+
+/// Model of `Vec::extend_from_slice` for the container cut above: appends by raw writes into
+/// existing capacity (asserting there is room) instead of going through reserve/grow.
+pub fn vec_extend_from_slice<T: Clone, A: std::alloc::Allocator>(v: &mut Vec<T, A>, other: &[T]) {
+    let len = v.len();
+    assert!(len + other.len() <= v.capacity(), "model capacity exceeded");
+    let mut i = 0;
+    while i < other.len() {
+        unsafe { std::ptr::write(v.as_mut_ptr().add(len + i), other[i].clone()) };
+        i += 1;
+    }
+    unsafe { v.set_len(len + other.len()) };
+}
+
 /// Wraps a harness body with `#[kani::proof]` and the four virtual-memory stubs.
 macro_rules! vm_proof {
     ($reserve:ident, $commit:ident; $(#[$m:meta])* fn $name:ident() $body:block) => {
